@@ -6,6 +6,10 @@ Gen.calculate_cartesian (re-translated from misc.py on every run); Properties/C1
 equi-join, post = number of blocked pairs, marginal counts = rows per match_key, cartesian = admissible pairs,
 n_largest sorted and maximal.
 Tie: the three public functions vs the compiled model on C01's tables and rules; a brute-force oracle on the real output.
+SQL level (c14_sql.py): the counting statements the code emits now are regenerated as Rel terms (Generated/BCountSql.lean, T-sql) with the
+equi-join keys as parameters; Properties/C14Sql.lean proves that under Rel.eval they compute the equi-join size / the blocks / |L|x|R| /
+truly largest blocks / the per-dataset row counts for every table contents; the regenerated terms are evaluated on the cases of this run
+and compared with the engine's results (translation_validation).
 """
 from __future__ import annotations
 
@@ -566,6 +570,14 @@ def backend_lt(case):
     return c01.backend_link_type(case)
 
 
+def model_cartesian(req, m):
+    """The model's Cartesian count behind the Python control flow of _cumulative_comparisons_to_be_scored_from_blocking_rules: with fewer
+    than two non-empty tables a link_only job has nothing to link (0, repair F41); otherwise the translated calculate_cartesian."""
+    if req["user_lt"] == "link_only" and len(req["counts"]) < 2:
+        return 0.0
+    return None if m["cartesian"] is None else core.b2f(m["cartesian"])
+
+
 def model_request(case, atoms=None):
     recs = c01.records(case)
     multi = len(case["tables"]) > 1
@@ -982,6 +994,7 @@ def compare(ctx, cases, drv):
     # the rule by split_problem), so that no case has to be excluded because of that choice
     reqs = [model_request(c, [tuple(a) for a in r["atoms"]] if isinstance(r, dict) and r.get("atoms") is not None else None)[0] for c, r in zip(cases, res)]
     mres = drv.pbatch(reqs)
+    sql_items = []
     for c, req, r, m in zip(cases, reqs, res, mres):
         o = oracle(c)
         atoms, flt = equi_conjuncts(c["rule"]["ast"])
@@ -1016,14 +1029,23 @@ def compare(ctx, cases, drv):
             pass
         elif m["cumulative"] != r["cumulative"]:
             bad = f"cumulative impl {r['cumulative']} model {m['cumulative']}"
-        elif r["cartesian"] is not None and (m["cartesian"] is None or not core.close(core.b2f(m["cartesian"]), r["cartesian"], 1e-12)):
-            bad = f"cartesian impl {r['cartesian']} model {m['cartesian'] and core.b2f(m['cartesian'])}"
+        elif r["cartesian"] is not None and (model_cartesian(req, m) is None or not core.close(model_cartesian(req, m), r["cartesian"], 1e-12)):
+            bad = f"cartesian impl {r['cartesian']} model {model_cartesian(req, m)}"
         elif "nlargest" in r and [x[3] for x in r["nlargest"]] != [b[1] * b[2] for b in m["nlargest"]]:
             bad = f"n_largest impl {[x[3] for x in r['nlargest']]} model {[b[1] * b[2] for b in m['nlargest']]}"
         if bad:
             problems.append((c, "analysis outputs differ from Lean model BlockingAnalysis: " + bad, False))
             continue
         ctx.traces_validated += 1
+        sql_items.append((c, c01.records(c), [tuple(a) for a in r["atoms"]], backend_lt(c) == "two_dataset_link_only", ALIASES[0], r))
+    import time
+
+    from harness.props import c14_sql
+
+    # the regenerated counting SQL (Generated/BCountSql.lean) under Rel.eval vs what the engine returned for the real code
+    t_sql = time.time()
+    problems += [(c, "T-sql translation validation: " + w, False) for c, w in c14_sql.validate(ctx, sql_items, drv)]
+    ctx.count("timing_s_tsql_validation", "total", round(time.time() - t_sql, 2))
     return problems
 
 
@@ -1072,7 +1094,7 @@ def compare_sessions(ctx, cases, drv):
                 continue
             reqs.append(model_request(step_case(c, i), [tuple(a) for a in o["atoms"]] if o.get("atoms") is not None else None)[0])
             where.append((c, i, o))
-    for (c, i, o), m in zip(where, drv.pbatch(reqs) if reqs else []):
+    for (c, i, o), req, m in zip(where, reqs, drv.pbatch(reqs) if reqs else []):
         if "error" in m:
             raise core.HarnessError("model driver error: " + m["error"])
         fn, bad = c["steps"][i]["fn"], None
@@ -1080,8 +1102,8 @@ def compare_sessions(ctx, cases, drv):
             bad = f"pre/post impl ({o['pre']}, {o['post']}) model ({m['pre']}, {m['post']})"
         elif fn in CUM_FNS and m["cumulative"] != o["cumulative"]:
             bad = f"cumulative impl {o['cumulative']} model {m['cumulative']}"
-        elif fn in CUM_FNS and o["cartesian"] is not None and (m["cartesian"] is None or not core.close(core.b2f(m["cartesian"]), o["cartesian"], 1e-12)):
-            bad = f"cartesian impl {o['cartesian']} model {m['cartesian'] and core.b2f(m['cartesian'])}"
+        elif fn in CUM_FNS and o["cartesian"] is not None and (model_cartesian(req, m) is None or not core.close(model_cartesian(req, m), o["cartesian"], 1e-12)):
+            bad = f"cartesian impl {o['cartesian']} model {model_cartesian(req, m)}"
         elif fn == "n_largest" and [x[3] for x in o["nlargest"]] != [b[1] * b[2] for b in m["nlargest"]]:
             bad = f"n_largest impl {[x[3] for x in o['nlargest']]} model {[b[1] * b[2] for b in m['nlargest']]}"
         if bad:
@@ -1273,10 +1295,17 @@ def run(ctx: core.Ctx):
         "pairs are oriented by composite-id order; 70% of the cases carry an explicit source_dataset column, 30% leave the dataset names to Splink (argument order must then decide the orientation, as it does in predict())",
     ]
     errs = tarith.write({"calculate_cartesian"})
+    from harness.props import c14_sql
+
+    import time as _time
+
+    t_prep = _time.time()
+    sql_errs = c14_sql.prepare()  # Generated/BCountSql.lean: the counting SQL blocking_analysis.py emits now, as Rel terms (T-sql); Properties/C14Sql.lean is re-checked against it
+    ctx.notes.append(f"timing: T-sql capture + regeneration of Generated/BCountSql.lean {_time.time() - t_prep:.1f}s")
     ctx.lean = core.lean_check(PROP, ctx.thorough)
-    if errs:
+    if errs or sql_errs:
         ctx.lean.ok = False
-        ctx.lean.problems += ["T-arith: " + e for e in errs]
+        ctx.lean.problems += ["T-arith: " + e for e in errs] + ["T-sql: " + e for e in sql_errs]
     drv = core.Driver()
     tv_bad = translation_validation(ctx, drv)
     if ctx.replay:
@@ -1334,8 +1363,17 @@ def run(ctx: core.Ctx):
                           kind="concrete", match_info={**failure_key(small, what), "asymmetric": not bg.symmetric(small["rule"]["ast"]) or any(not bg.symmetric(x["ast"]) for x in small["rules"]), "explicit_sd": small["explicit_sd"]})
         new += len(ctx.violations) > before  # failures matched by a registered known finding do not use up the report slots
     ctx.notes.append(f"timing: correspondence over {len(cases)} cases {t_cmp:.1f}s; shrinking and reporting {len(reported)} distinct failures {time.time() - t_rep:.1f}s")
-    if not concrete:
-        if broken:
+    if not ctx.violations:
+        # no NEW concrete failure (there is none, or every one is described by a registered known finding): a broken correspondence,
+        # translation validation or obligation is still reported - it used to be skipped whenever ANY concrete failure existed, and
+        # every run has the known K13 / K22 ones (found by the T-sql agent: a mutant passed with 10 of 25 obligations discharged)
+        tsql_bad = [(c, w) for c, w in broken if w.startswith("T-sql translation validation:")]
+        if tsql_bad:
+            c, w = tsql_bad[0]
+            ctx.violation("translation validation of Generated/BCountSql.lean (counting SQL of blocking_analysis.py) no longer checks",
+                          {"correspondence": "harness/props/c14_sql.py validate(): " + w, "case": c, "disagreeing_cases": len(tsql_bad),
+                           "searched_cases": ctx.evaluations, "lean": ctx.lean.as_dict()}, kind="unproved")
+        elif broken:
             c, w = broken[0]
             ctx.violation("correspondence BlockingAnalysis model <-> blocking_analysis.py no longer checks",
                           {"correspondence": "harness/props/c14.py compare(): " + w, "case": c, "disagreeing_cases": len(broken), "searched_cases": ctx.evaluations, "lean": ctx.lean.as_dict()}, kind="unproved")
